@@ -28,6 +28,8 @@ ASSUMPTIONS = [
     'the worker schedule reaches the output only through the order in which job results are delivered',
 ]
 CONTIGS = [('c1', 2000), ('c2', 1500), ('c3', 300)]
+# only used by the contig-per-process comparison: small contigs that together exceed the 100 kb small-contig threshold, and a large one
+EXTRA_CONTIGS = [('m1', 60000), ('m2', 60000), ('m3', 45000), ('big', 150000)]
 MAXFRAG = 60
 IGNORE_TAGS = {'mi', 'ix'}
 
@@ -51,10 +53,10 @@ def tiling_boundaries(tier):
     return out
 
 
-def build_input(path, method, tier):
+def build_input(path, method, tier, extra=False):
     mx = 'scCHIC384C8U3' if method == 'chic' else 'NLAIII384C8U3'
     kw = dict(method=method, mx=mx)
-    b = Builder(CONTIGS)
+    b = Builder(CONTIGS + (EXTRA_CONTIGS if extra else []))
     bnds = tiling_boundaries(tier)
     umis = ['AAA', 'ACG', 'CCT', 'GTA', 'TTC']
     k = 0
@@ -80,6 +82,11 @@ def build_input(path, method, tier):
                 if k % 7 == 0:
                     b.pair(contig, site, cell=1, umi='GGG', reverse=reverse, motif='CTTG', frag=50, **kw)   # reject (nla)
         b.pair(contig, min(length - 100, 150), cell=2, umi='TGA', r2_unmapped=True, **kw)
+    if extra:
+        for ci, (contig, length) in enumerate(EXTRA_CONTIGS):
+            b.pair(contig, 1000 + ci, cell=1, umi='AAA', **kw)
+            b.pair(contig, 1000 + ci, cell=1, umi='AAA', frag=45, **kw)
+            b.pair(contig, length - 500, cell=2, umi='CGT', reverse=True, **kw)
     b.unmapped_pair()
     b.unmapped_pair(cell=2, umi='CCC')
     b.write(path)
@@ -129,11 +136,11 @@ def diff_signature(want, got):
 class Session:
     """one input BAM + its serial reference output, reused for all tilings of a shard"""
 
-    def __init__(self, method, tier):
+    def __init__(self, method, tier, extra=False):
         self.method = method
         self.d = tempfile.mkdtemp(prefix='c08_', dir='/dev/shm')
         self.inp = os.path.join(self.d, 'in.bam')
-        build_input(self.inp, method, tier)
+        build_input(self.inp, method, tier, extra=extra)
         self.nrec = len(records(self.inp))
         out = os.path.join(self.d, 'serial.bam')
         exc, _ = tagger.run_tagger([self.inp, '-method', method, '-o', out, '-temp_folder', self.d])
@@ -206,7 +213,7 @@ def shards(tier):
 def run_shard(shard, tier, acc):
     method, ci = shard
     cfg = configs(tier)[ci]
-    ses = Session(method, tier)
+    ses = Session(method, tier, extra=(cfg is None))
     try:
         if ses.serial is None:
             case = {'method': method, 'cfg': None, 'order': None, 'tier': tier}
@@ -239,7 +246,7 @@ def _report(acc, case, viols, njobs, nrec):
 
 
 def replay(case):
-    ses = Session(case['method'], case.get('tier', 'quick'))
+    ses = Session(case['method'], case.get('tier', 'quick'), extra=(case['cfg'] is None))
     try:
         if ses.serial is None:
             return [(f"{case['method']}:serial:exception:{type(ses.serial_error).__name__}", repr(ses.serial_error))]
